@@ -7,6 +7,7 @@ import (
 	"fmt"
 	"io"
 	"sort"
+	"sync"
 
 	"github.com/u-root/uio/ulog"
 )
@@ -108,6 +109,59 @@ func (s *Server) VerifTreeShape() string {
 		}
 	}
 	rec(s.pathTree, "")
+	return out
+}
+
+// verifConns: the connection states of every Handle call, per server, in the
+// order the connections were accepted (registered by a splice that verifgen
+// inserts into Server.Handle).
+var (
+	verifConnsMu sync.Mutex
+	verifConns   = map[*Server][]*connState{}
+)
+
+// VerifTrackConns switches the registration on (off by default: the table
+// keeps every connection state alive until VerifForget).
+var VerifTrackConns = false
+
+func verifRegisterConn(s *Server, cs *connState) {
+	if !VerifTrackConns {
+		return
+	}
+	verifConnsMu.Lock()
+	verifConns[s] = append(verifConns[s], cs)
+	verifConnsMu.Unlock()
+}
+
+// VerifForget drops the bookkeeping for s (end of a history).
+func (s *Server) VerifForget() {
+	verifConnsMu.Lock()
+	delete(verifConns, s)
+	verifConnsMu.Unlock()
+}
+
+// VerifFidTables renders, canonically, the server-side state of every fid of
+// every connection that the wire does not show: open state and raw open
+// flags, mode, deleted mark, and the pending xattr operation with the number
+// of bytes accumulated. Must be called while the server is quiescent.
+func (s *Server) VerifFidTables() string {
+	verifConnsMu.Lock()
+	conns := append([]*connState{}, verifConns[s]...)
+	verifConnsMu.Unlock()
+	out := ""
+	for i, cs := range conns {
+		var fids []int
+		for f := range cs.fids {
+			fids = append(fids, int(f))
+		}
+		sort.Ints(fids)
+		out += fmt.Sprintf("conn%d:", i)
+		for _, f := range fids {
+			r := cs.fids[fid(f)]
+			out += fmt.Sprintf("[%d o=%v fl=%#x m=%#o del=%v x=%d:%q:%d:%d:%d]", f, r.opened, uint32(r.openFlags), uint32(r.mode), r.isDeleted(), r.pendingXattr.op, r.pendingXattr.name, r.pendingXattr.size, uint32(r.pendingXattr.flags), len(r.pendingXattr.buf))
+		}
+		out += ";"
+	}
 	return out
 }
 
